@@ -122,10 +122,10 @@ func runC18(r *R) {
 	cfg := r.SchedConfig()
 	var cli *simnet.Conn
 	var srv *scriptSrv
-	var authOff, enabledOff int64 = -1, -1 // offsets in the client->server stream at which the server state changed
+	var authOff, enabledOff int64 = -1, -1  // offsets in the client->server stream at which the server state changed
 	var unauthOff, reauthOff int64 = -1, -1 // UNAUTHENTICATE received; LOGIN received after it
 	var utf8Off, utf8SentOff int64 = -1, -1 // UTF8=ACCEPT enabled (client stream offset); its ENABLED response sent (server stream offset)
-	var enabledSentOff int64 = -1          // offset in the server->client stream after the ENABLED response
+	var enabledSentOff int64 = -1           // offset in the server->client stream after the ENABLED response
 	var srvPipe int
 	r.Sim(cfg, func() {
 		r.Net.KeepLog = true
